@@ -20,6 +20,13 @@ type Oracle struct {
 	stateAppAt  map[uint64]uint64      // app root recorded in the durable state when its height was n
 	committed   map[uint64][]byte      // header hash of every height first seen committed or published
 	maxHeight   uint64
+	execRet     map[uint64]uint64      // root handed back by the LAST successful ExecuteTxs for height n
+	lastMaxB    uint64                 // maxBytes handed back by the last successful ExecuteTxs (0: none / no limit)
+	stepBatch   *batchRec              // the batch the sequencing layer handed out in the current step
+	// coverage classes (counted in result.json)
+	EmptyRoots int // successful ExecuteTxs / InitChain calls that handed back a root of length 0
+	OverLimit  int // batches handed out whose transactions are larger than the last maxBytes the execution layer reported
+	OnEmpty    int // blocks committed on top of a state whose root has length 0
 	// classes of the history (for signatures)
 	tornCommit bool // a crash cut a step inside its commit group (between the state write and the store-height write)
 	cutStop    bool // a shutdown died between two cache files
@@ -34,7 +41,7 @@ type batchRec struct {
 }
 
 func newOracle(w *World) *Oracle {
-	return &Oracle{w: w, batchesAt: map[uint64][]batchRec{}, stateAppAt: map[uint64]uint64{}, committed: map[uint64][]byte{}}
+	return &Oracle{w: w, batchesAt: map[uint64][]batchRec{}, stateAppAt: map[uint64]uint64{}, committed: map[uint64][]byte{}, execRet: map[uint64]uint64{}}
 }
 
 func (o *Oracle) fail(sig, what string) {
@@ -74,7 +81,10 @@ func eqInts(a, b []int) bool {
 
 func (o *Oracle) afterBoot(idx int, it Item, initOK bool, err error) {
 	if initOK {
-		o.genesisRoot = RootID(idx)
+		o.genesisRoot = RootOf(idx, it)
+		if it.EmptyRoot {
+			o.EmptyRoots++
+		}
 	}
 	if err != nil && o.tampered && classify(err) == "boot-fail-cache" {
 		return // damage by hand is outside the property; the model predicts this failure
@@ -88,7 +98,16 @@ func (o *Oracle) afterBoot(idx int, it Item, initOK bool, err error) {
 func (o *Oracle) gaveBatch(it *Item) {
 	st := o.w.Store()
 	h, _ := st.Height(o.w.ctx)
-	o.batchesAt[h] = append(o.batchesAt[h], batchRec{txs: append([]int{}, it.Txs...), ts: it.Ts})
+	rec := batchRec{txs: append([]int{}, it.Txs...), ts: it.Ts}
+	o.batchesAt[h] = append(o.batchesAt[h], rec)
+	o.stepBatch = &rec
+	size := uint64(0)
+	for _, id := range it.Txs {
+		size += uint64(len(o.w.Pool[id%len(o.w.Pool)]))
+	}
+	if o.lastMaxB > 0 && size > o.lastMaxB {
+		o.OverLimit++
+	}
 	if len(it.Txs) == 0 && h >= o.w.Cfg.Initial {
 		if hd, err := st.GetHeader(o.w.ctx, h); err == nil && it.Ts < nanoToMs(hd.BaseHeader.Time) {
 			o.earlyEmpty = true
@@ -96,7 +115,18 @@ func (o *Oracle) gaveBatch(it *Item) {
 	}
 }
 
+// called by the executor double when ExecuteTxs hands back a root
+func (o *Oracle) executed(h, root, maxBytes uint64) {
+	o.execRet[h] = root
+	o.lastMaxB = maxBytes
+	if root == EmptyRootID {
+		o.EmptyRoots++
+	}
+}
+
 func (o *Oracle) afterStep(idx int, it Item, obs Obs, hdrs []*types.SignedHeader, datas []*types.Data) {
+	batch := o.stepBatch
+	o.stepBatch = nil
 	if obs.Res != "committed" {
 		if len(hdrs)+len(datas) > 0 {
 			o.fail("published-without-commit", fmt.Sprintf("item %d: step result %s but %d headers / %d data were broadcast", idx, obs.Res, len(hdrs), len(datas)))
@@ -127,8 +157,16 @@ func (o *Oracle) afterStep(idx int, it Item, obs Obs, hdrs []*types.SignedHeader
 	if obs.Call == nil || obs.Call.H != n || !eqInts(obs.Call.Txs, pb.Txs) || obs.Call.T != pb.T || !ok || obs.Call.Prev != prev {
 		o.fail("exec-call-wrong", fmt.Sprintf("item %d: committed height %d (txs %v, time %d, previous root %d) but ExecuteTxs saw %+v", idx, n, pb.Txs, pb.T, prev, obs.Call))
 	}
-	if obs.State == nil || obs.State.App != RootID(idx) {
-		o.fail("state-root-not-exec-result", fmt.Sprintf("item %d: committed height %d, executor returned root %d, recorded state %+v", idx, n, RootID(idx), obs.State))
+	if obs.State == nil || obs.State.App != RootOf(idx, it) {
+		o.fail("state-root-not-exec-result", fmt.Sprintf("item %d: committed height %d, executor returned root %d (0 = the root of length 0), recorded state %+v", idx, n, RootOf(idx, it), obs.State))
+	}
+	// a block built in this step from the batch the sequencing layer just handed out holds exactly the
+	// transactions of that batch, all of them, in order, and its timestamp
+	if batch != nil && (!eqInts(batch.txs, pb.Txs) || batch.ts != pb.T) {
+		o.fail("txs-not-from-batch", fmt.Sprintf("item %d: the sequencing layer handed out transactions %v / time %d, the block committed at height %d from it holds %v / time %d", idx, batch.txs, batch.ts, n, pb.Txs, pb.T))
+	}
+	if ok && prev == EmptyRootID {
+		o.OnEmpty++
 	}
 }
 
@@ -342,6 +380,10 @@ func (o *Oracle) final() {
 		}
 		if !ok || pb.App != want {
 			bad("bad-app-hash", "AppHash is root %d, the state after %d had root %d (%v)", pb.App, n-1, want, ok)
+		}
+		// ... and that is the root the execution layer handed back for the previous block (0 = the root of length 0)
+		if ret, okr := o.execRet[n-1]; n > ini && okr && pb.App != ret {
+			o.fail("bad-app-hash", fmt.Sprintf("height %d: AppHash is root %d, the execution layer returned root %d for height %d (0 = the root of length 0)", n, pb.App, ret, n-1))
 		}
 		if pb.HSig != 1 || !pb.SignOk || !pb.PropOk || pb.SSig != 1 || !pb.ChainOk {
 			bad("not-signed-by-proposer", "header signature class %d, signer ok %v, proposer ok %v, signature record class %d, chain ok %v", pb.HSig, pb.SignOk, pb.PropOk, pb.SSig, pb.ChainOk)
